@@ -228,6 +228,7 @@ func runC03(c *Ctx) {
 	c.R.RequireMin("R03.1", "non-Copyright Match literals", nLicense, 1)
 	c.R.RequireMin("R03.7", "Copyright Match literals", nCopyright, 1)
 
+	checkMatchImmutable(c, p)
 	checkOrdering(c, p)
 	checkResultIsRetained(c, p)
 	checkKeyFormat(c, p, "R03.6")
@@ -253,6 +254,38 @@ func runC03(c *Ctx) {
 
 	checkLineCounter(c, p, "R03.9")
 	checkOneTokenPerWord(c, p, "R03.10")
+}
+
+// checkMatchImmutable: R03.13. A Match is complete when it is built: its fields are written by the composite literal that
+// creates it and by nothing else. A later store (extending the EndLine of the previous pseudo-match to merge two notices,
+// rounding a Confidence after the threshold test, ...) changes a value that the guards at the literal established.
+func checkMatchImmutable(c *Ctx, p *core.Prog) {
+	n, nLit := 0, 0
+	for _, fn := range v2Funcs(p) {
+		for _, b := range fn.Blocks {
+			for _, in := range b.Instrs {
+				st, ok := in.(*ssa.Store)
+				if !ok {
+					continue
+				}
+				fa, ok := st.Addr.(*ssa.FieldAddr)
+				if !ok || !strings.HasSuffix(core.TypeName(fa.X.Type()), "/v2.Match") {
+					continue
+				}
+				n++
+				if al, isAlloc := fa.X.(*ssa.Alloc); isAlloc && al.Parent() == fn {
+					nLit++
+					continue
+				}
+				c.R.Fail("R03.13", core.ShortFn(fn)+": field "+core.FieldName(fa)+" of an existing Match is overwritten", p.Pos(st.Pos()),
+					"a Match is changed after it was built: the value no longer is the one the guards at its construction established (threshold <= Confidence, StartLine <= EndLine of one span, a Copyright pseudo-match on one line)")
+			}
+		}
+	}
+	c.R.RequireMin("R03.13", "stores into Match fields (all inside composite literals)", n, 4)
+	if n == nLit {
+		c.R.OK("R03.13", "the fields of a Match are written only by the literal that builds it", "-", fmt.Sprintf("%d field stores, all into a Match allocated by the same function", n))
+	}
 }
 
 // keyDecoderFuncs: the functions that compute MatchType/Name/Variant of the license Match literals - the decoders called
